@@ -111,6 +111,15 @@ func (m *roster) updateTasks(tasks Tasks) {
 	m.tasks = tasks
 }
 
+// keepOnly drops the tasks which do not match the filter, in one critical section: a filtered copy written back
+// with updateTasks would erase whatever another goroutine (the deployment of another environment) appends in between.
+func (m *roster) keepOnly(filter Filter) {
+	m.mu.Lock()
+	defer m.mu.Unlock()
+
+	m.tasks = m.tasks.Filtered(filter)
+}
+
 func (m *roster) append(task *Task) {
 	m.mu.Lock()
 	defer m.mu.Unlock()
